@@ -265,6 +265,8 @@ def monC06 (h : Hist) : Option String :=
 def monC10 (h : Hist) : Option String :=
   first? [
     if h.leak > 0 then some s!"{h.leak} origin call(s) still pending after every timeout elapsed" else none,
+    h.bodyLeaks.head?.map fun p =>
+      s!"exchange {p.1} ({p.2.1} call {p.2.2}): the origin's response body was neither read to its end nor closed (its connection is held for ever)",
     h.reqs.findSome? fun ri => do
       let x ← h.ex ri
       match x.res.kind with
